@@ -313,7 +313,7 @@ fn gen_op(rng: &mut Rng, n_authors: usize, uniq: &mut u64, client: usize, unique
 }
 
 pub fn run(ctx: &mut Ctx) {
-    for case in ctx.cases(300, 40_000) {
+    for case in ctx.cases(2_500, 200_000) {
         let mut rng = ctx.rng(case);
         if case % 3 == 0 {
             concurrent_case(ctx, case, &mut rng);
